@@ -20,6 +20,7 @@ Qed.
 
 (* completeness of one step above the context frame: the plain formula, whatever the slot holds *)
 Lemma fpo_step_above_context : forall mem below callee r i fs ra,
+  w_thing i = AllocatesBasePointer false ->
   below <> [] ->
   win_frame_size i (spec_gcps below) = Some fs ->
   0 <= x_esp r -> 0 <= fs ->
@@ -27,8 +28,8 @@ Lemma fpo_step_above_context : forall mem below callee r i fs ra,
   ra < 2 ^ 32 -> x_esp r + fs + 4 < 2 ^ 32 -> x_ebp r < 2 ^ 32 ->
   fpo_step mem below callee r i = Some (mkX ra (x_esp r + fs + 4) (x_ebp r)).
 Proof.
-  intros mem below callee r i fs ra Hne Hfs Hesp0 Hfs0 Hm Hra Hsp Hbp.
-  unfold fpo_step, frames_env. rewrite walker_has_gc_spec, walker_gcps_spec.
+  intros mem below callee r i fs ra Habp Hne Hfs Hesp0 Hfs0 Hm Hra Hsp Hbp.
+  unfold fpo_step, frames_env. rewrite Habp. rewrite walker_has_gc_spec, walker_gcps_spec.
   rewrite (spec_has_gc_nonempty _ Hne).
   unfold walk_win_fpo. cbv zeta. cbn [e_gcps e_callee e_mem e_has_gc].
   rewrite Hfs.
@@ -52,6 +53,7 @@ Qed.
 Theorem fpo_recursion_chain : forall (n : nat) mem in_stack lookup i ps F rr ebp below esp0,
   let gcps := match ps with Some k => k | None => 0 end in
   below <> [] -> spec_gcps below = gcps ->
+  w_thing i = AllocatesBasePointer false ->
   win_frame_size i gcps = Some F -> 0 <= F ->
   lookup rr = Some (i, ps) ->
   4096 <= rr < 2 ^ 32 -> ebp < 2 ^ 32 -> 0 <= esp0 ->
@@ -61,7 +63,7 @@ Theorem fpo_recursion_chain : forall (n : nat) mem in_stack lookup i ps F rr ebp
   fpo_walk n mem in_stack lookup below (mkX rr esp0 ebp) =
     map (fun k => mkX rr (esp0 + Z.of_nat (S k) * (F + 4)) ebp) (seq 0 n).
 Proof.
-  induction n as [|n IH]; intros mem in_stack lookup i ps F rr ebp below esp0 gcps Hne Hg Hfs HF Hl Hrr Hbp Hesp Htop Hmem.
+  induction n as [|n IH]; intros mem in_stack lookup i ps F rr ebp below esp0 gcps Hne Hg Habp Hfs HF Hl Hrr Hbp Hesp Htop Hmem.
   - reflexivity.
   - cbn [fpo_walk x_esp x_eip].
     destruct (Hmem 0%nat ltac:(lia)) as [His Hm0]. cbn [Z.of_nat] in His, Hm0.
@@ -69,7 +71,7 @@ Proof.
     replace (match below with [] => true | _ :: _ => in_stack esp0 end) with true
       by (destruct below; [contradiction|symmetry; exact His]).
     rewrite Hl.
-    rewrite (fpo_step_above_context mem below (mkSF ps) (mkX rr esp0 ebp) i F rr Hne); cbn [x_esp x_ebp x_eip];
+    rewrite (fpo_step_above_context mem below (mkSF ps) (mkX rr esp0 ebp) i F rr Habp Hne); cbn [x_esp x_ebp x_eip];
       try lia; [| rewrite Hg; exact Hfs | exact Hm0].
     replace (rr <? 4096) with false by (symmetry; apply Z.ltb_ge; lia).
     replace (esp0 + F + 4 <=? esp0) with false by (symmetry; apply Z.leb_gt; lia).
